@@ -1,6 +1,7 @@
 mod common;
 mod lexmc;
 mod run;
+mod hostobj;
 mod kast;
 mod kval;
 mod kref;
@@ -12,6 +13,7 @@ mod fam_fn;
 mod fam_match;
 mod fam_err;
 mod fam_types;
+mod fam_meta;
 
 use common::Args;
 
@@ -59,6 +61,15 @@ fn main() {
             &fam_err::classify,
             Some(&fam_err::state_check),
             "C04 families: 9 fault kinds x 12 fault sites (inline, call depth 1/3, method, each/fold callbacks, generator, @+, list/string/call/map construction) x 7 handler structures (catch, finally, typed chains in all orders, nested matching/rethrowing) x 4 result uses; try/catch/finally blocks left by fall-through/return/break/continue/throw inside a loop inside a function; errors caught inside open string/list/tuple/map/call constructions; no-error paths. After every run the VM's internal stacks must be empty (hook H1)",
+            &[],
+        ),
+        "progmc-meta" => progmc::run_profile(
+            &args,
+            run::RunCfg::default(),
+            &fam_meta::generate,
+            &fam_meta::classify,
+            Some(&fam_err::state_check),
+            "C17 families: 6 arithmetic operators x 8 left operand classes x 4 right operand classes (binary form, repeated in a loop, compound form with/without @op= and @op); every subset of the 6 comparison metakeys x 6 operators x 3 other operands, derived results for every @</@== outcome; every subset of size <= 2 (thorough 3) of 11 protocol metakeys x 15 operations; key lookup through own data / @meta / @base chains of depth 2 and shared metamaps",
             &[],
         ),
         "progmc-types" => {
